@@ -17,6 +17,7 @@ package redis
 //                          any instances) are executed; if the call sends fewer than p commands they are
 //                          executed after it returned.  So other instances' operations and clock advances are
 //                          placed BETWEEN the individual Redis commands of one call.
+//       scriptflush        SCRIPT FLUSH: the next script run is EVALSHA -> NOSCRIPT (nothing executed), then EVAL
 //       lost <acquire i|release i>   the reply of the call's first executed command is dropped after Redis
 //                          executed it (the hook returns a connection error instead): the caller sees an error
 // obs:  <true|false|ok|err> k0=<owner>:<pttl>|k0=- ...        race => won=<i,j|-> <store>
@@ -247,6 +248,9 @@ func c19Gen(r *verifh.Rng) []verifh.Section {
 		// inj: `inner` is executed immediately before the p-th Redis command of the call (the real code
 		// sends one, or two when the script is not yet cached), else after the call
 		inj := func(p int, call string, i int, inner ...string) {
+			if r.Chance(1, 4) {
+				add("scriptflush") // this call's script run takes two round trips; p=2 falls between them
+			}
 			add("inj %d %s %d [ %s ]", p, call, i, strings.Join(inner, " ; "))
 			outer := fmt.Sprintf("%s %d", call, i)
 			if p == 1 {
@@ -297,8 +301,15 @@ func c19Gen(r *verifh.Rng) []verifh.Section {
 			case x < 44:
 				setexp(i, r.Pick(0, 1, 2, 3, 5, 10, r.Range(0, 100)))
 			case x < 46:
-				// out-of-domain seconds: uint32 conversion wraps (modelled, outside the property)
-				setexp(i, r.Pick(-1, -2, 1<<32, 1<<32+1, -(1<<32), 1<<31, 1<<32-1))
+				if r.Bool() {
+					// out-of-domain seconds: uint32 conversion wraps (modelled, outside the property)
+					setexp(i, r.Pick(-1, -2, 1<<32, 1<<32+1, -(1<<32)))
+				} else {
+					// large but valid seconds: seconds*1000+500 must not wrap in 32 bits (2147483 s is the last
+					// value whose lease fits in int32, 4294967 s in uint32)
+					setexp(i, r.Pick(2147483, 2147484, 4294967, 4294968, 1<<31-1, 1<<31, 1<<32-1))
+					acq(i)
+				}
 			case x < 60:
 				// aim at the boundary of the lease currently running on a key
 				if sim.holder[k] >= 0 {
@@ -501,8 +512,14 @@ func TestVerifC19(t *testing.T) {
 		idOf := map[string]int{}
 		dup := false
 		idLen := -1
+		idAlpha := true
 		for i := range locks {
 			locks[i] = NewRedisLock(client, fmt.Sprintf("k%d", i%nkeys))
+			for _, ch := range locks[i].id {
+				if !(ch >= 'a' && ch <= 'z' || ch >= 'A' && ch <= 'Z' || ch >= '0' && ch <= '9') {
+					idAlpha = false
+				}
+			}
 			if _, ok := idOf[locks[i].id]; ok {
 				dup = true
 			} else {
@@ -654,6 +671,16 @@ func TestVerifC19(t *testing.T) {
 					return "bad-op"
 				}
 				res = r
+			case op[0] == "scriptflush" && len(op) == 1:
+				// Redis forgets the cached scripts: the next script run gets NOSCRIPT for its EVALSHA and sends EVAL
+				conn, err := getRedis(client)
+				if err != nil {
+					return "err"
+				}
+				if err := conn.ScriptFlush(context.Background()).Err(); err != nil {
+					return "err"
+				}
+				return "ok"
 			case op[0] == "down" && len(op) == 1:
 				mr.SetError("LOADING verif: redis is down")
 				return "ok"
@@ -706,6 +733,9 @@ func TestVerifC19(t *testing.T) {
 			case op[0] == "ids" && len(op) == 1:
 				if dup {
 					return "dup"
+				}
+				if !idAlpha {
+					return fmt.Sprintf("distinct len=%d alphabet=other", idLen)
 				}
 				return fmt.Sprintf("distinct len=%d", idLen)
 			default:
